@@ -66,7 +66,7 @@ fn same(a: &Amf0Value, b: &Amf0Value) -> bool {
 fn same_seq(a: &[Amf0Value], b: &[Amf0Value]) -> bool { a.len() == b.len() && a.iter().zip(b).all(|(p, q)| same(p, q)) }
 fn dec_all(bytes: &[u8]) -> Result<(Vec<Amf0Value>, usize), String> {
     let mut c = Cursor::new(bytes.to_vec());
-    match std::panic::catch_unwind(std::panic::AssertUnwindSafe(|| deserialize(&mut c))) { Err(_) => Err("PANIC".into()), Ok(Err(e)) => Err(format!("{}", e)), Ok(Ok(v)) => Ok((v, c.position() as usize)) }
+    match std::panic::catch_unwind(std::panic::AssertUnwindSafe(|| deserialize(&mut c))) { Err(_) => fail(format!("deserialize panicked on {} bytes {:02x?}", bytes.len(), &bytes[..std::cmp::min(bytes.len(), 80)])), Ok(Err(e)) => Err(format!("{}", e)), Ok(Ok(v)) => Ok((v, c.position() as usize)) }
 }
 fn nest(kind: u8, depth: usize) -> Amf0Value { let mut v = Amf0Value::Null; for _ in 0..depth { v = if kind == 0 { Amf0Value::StrictArray(vec![v]) } else { let mut m = HashMap::new(); m.insert("a".to_string(), v); Amf0Value::Object(m) }; } v }
 
@@ -244,8 +244,8 @@ fn c14(exe: &str) {
                 let mut pval = vec![3u8, 0, 1, b'k']; pval.extend_from_slice(&top); pval.extend_from_slice(&[0, 0, 9]);
                 let mut elem = vec![0x0Au8, 0, 0, 0, 1]; elem.extend_from_slice(&top);
                 for (place, b) in [("a top-level string", top.clone()), ("a property name", name), ("a property value", pval), ("an array element", elem)] {
-                    let r = std::panic::catch_unwind(std::panic::AssertUnwindSafe(|| dec_all(&b).is_ok()));
-                    if r.is_err() { fail(format!("[c14] deserialize panicked on {} of {} bytes that is not valid UTF-8 ({} characters of alphabet {} damaged): {:02x?}", place, v.len(), n, ai, &b[..std::cmp::min(b.len(), 80)])); }
+                    let r = dec_all(&b);      // dec_all turns a panic into Err("PANIC")
+                    if r == Err("PANIC".to_string()) { fail(format!("[c14] deserialize panicked on {} of {} bytes that is not valid UTF-8 ({} characters of alphabet {} damaged): {:02x?}", place, v.len(), n, ai, &b[..std::cmp::min(b.len(), 80)])); }
                 }
             }
         } }
